@@ -104,6 +104,13 @@ def build(sc):
                            "paceMax": nd.get("paceMax", -1),
                            "cas": list(nd.get("cas", [])), "lst": lst}
     sim.projector = proj21 if dll == "j1939-21" else proj22
+    if sc.get("wrap_send"):
+        # calls into ecu.send_pgn made by library services (DM1, DM14 ...) are logged like application calls
+        for n in sim.nodes:
+            def wrapped(dp, pf, ps, prio, sa, data, time_limit=0, frame_format=3, _n=n, _orig=n.ecu.send_pgn):
+                return sim.api(_n, "send_pgn", lambda: _orig(dp, pf, ps, prio, sa, data, time_limit, frame_format),
+                               dp=dp, pf=pf, ps=ps, prio=prio, sa=sa, data=list(data), tl=int(round(time_limit * 1e6)), ff=frame_format)
+            n.ecu.send_pgn = wrapped
     return sim, cfg
 
 
@@ -128,6 +135,31 @@ def run(sc):
         peers[pd["name"]] = refpeer.RefPeer(sim, pd["addr"], ch, fd=(sc.get("dll") == "j1939-22"), name=pd["name"],
                                             latency=pd.get("lat", 300), maxc=pd.get("maxc", 255))
     stim = []
+    d1 = sc.get("dm1")
+    if d1:
+        import j1939
+        snd, rcv = d1["sender"], d1["receiver"]
+        ns_, nr_ = sim.node(snd["node"]), sim.node(rcv["node"])
+        ca_s = [c for c in ns_.cas if c._device_address == snd["ca"]][0]
+        ca_r = [c for c in nr_.cas if c._device_address == rcv["ca"]][0]
+        dm_s, dm_r = j1939.Dm1(ca_s), j1939.Dm1(ca_r)
+        seq = list(snd["seq"])
+        cnt = [0]
+
+        def src_cb():
+            x = seq[cnt[0] % len(seq)]
+            cnt[0] += 1
+            sim.log({"ev": "timer", "node": ns_.name, "period": snd["cycle"]})
+            sim.log({"ev": "dm1src", "node": ns_.name, "lamps": dict(x["lamps"]), "dtcs": [dict(d) for d in x["dtcs"]]})
+            return dict(x["lamps"]), [dict(d) for d in x["dtcs"]]
+
+        def rx_cb(sa, lamps, dtcs, ts):
+            sim.log({"ev": "dm1rx", "node": nr_.name, "sa": sa, "lamps": {k: int(v) for k, v in lamps.items()},
+                     "dtcs": [{"spn": int(d["spn"]), "fmi": int(d["fmi"]), "oc": int(d["oc"])} for d in dtcs]})
+        dm_r.subscribe(rx_cb)
+        stim.append((snd["start"], 4, ("start", dm_s, src_cb, snd)))
+        if snd.get("stop") is not None:
+            stim.append((snd["stop"], 4, ("stop", dm_s, src_cb, snd)))
     for s in sc.get("psends", []):
         stim.append((s["t"], 2, s))
     for s in sc.get("timers", []):
@@ -136,10 +168,18 @@ def run(sc):
         stim.append((s["t"], 0, s))
     for s in sc.get("inject", []):
         stim.append((s["t"], 1, s))
-    stim.sort(key=lambda x: (x[0], x[1]))
+    stim.sort(key=lambda x: (x[0], x[1], 0))
     for t, kind, s in stim:
         if t0 + t > sim.now_us:
             sim.run(t0 + t - sim.now_us)
+        if kind == 4:
+            what, dm_s, src_cb, snd = s
+            n = sim.node(snd["node"])
+            if what == "start":
+                sim.api(n, "add_timer", lambda: dm_s.start_send(src_cb, snd["cycle"] / 1e6), delta=snd["cycle"])
+            else:
+                sim.api(n, "remove_timer", lambda: dm_s.stop_send(src_cb))
+            continue
         if kind == 2:
             pr = peers[s["peer"]]
             pr.send(s["da"], s.get("dp", 0), s["pf"], s.get("ps", 0), payload(s["size"], s.get("salt", 0)),
